@@ -51,8 +51,8 @@ CHECKS = {
     "C01": dict(
         engine="e2e", category="exploration",
         technique="property-based end-to-end testing: generated problems x solver configs judged by an independent reference model (differential oracle)",
-        text="Valid pragmatic problems are generated by construction over the full feature surface (all task kinds, multi-place, multi-window, multi-dimensional demand, skills, groups, compatibility, order, value, limits, breaks, reloads, shared resources, scaled/multiple profiles, unreachable pairs, non-metric matrices) and solved under generated solver configurations (all populations, hyper-heuristics, operator lists, initial methods, thread layouts); every returned solution document is judged by the reference model R, which re-derives schedules and loads from the problem data alone. Found and fixed a state-wiping defect that disabled time/limit constraints, and recorded an open reachability finding.",
-        note="Trusted: reference model R (harness/src/engines/refmodel.rs). Interleavings and termination moments are sampled. Required breaks / clustering / recharge / time-dependent matrices are not generated here.",
+        text="Valid pragmatic problems are generated by construction over the full feature surface (all task kinds, multi-place, multi-window, multi-dimensional demand, skills, groups, compatibility, order, value, limits, breaks, reloads, shared resources, scaled/multiple profiles, unreachable pairs, non-metric matrices) and solved under generated solver configurations (all populations, hyper-heuristics, operator lists, initial methods, thread layouts); every returned solution document is judged by the reference model R, which re-derives schedules and loads from the problem data alone. A second sub-check (e2e_relations_*) first solves the problem lightly, reads relations off that witness solution (any / sequence / strict, departure and arrival anchors, up to two per tour, multi-task jobs in `any`), adds them to the problem and solves again under the generated configuration: R then also judges relation pinning (vehicle, order, contiguity, anchors). Found and fixed a state-wiping defect that disabled time/limit constraints, a shared-resource overdraw in one dimension, and recorded an open reachability finding.",
+        note="Trusted: reference model R (harness/src/engines/refmodel.rs). Interleavings and termination moments are sampled. Required breaks / clustering / recharge / time-dependent matrices are not generated here; relations are derived only for witness tours without reloads and with departure at the earliest start (else the listed order is not itself feasible, which the documentation demands of user relations).",
         design_ref="4/C01, 3"),
     "C02": dict(
         engine="e2e", category="exploration",
